@@ -55,6 +55,38 @@ def reuse_shapes():
             yield sc2
 
 
+def chain_shapes():
+    """the next transfer is started from the receive path, as an answer: (21) B reacts to A's completed broadcast with a short
+    command and A answers from its callback with another broadcast; (FD) A starts its next transfer to B from the callback
+    that reports the end-of-message acknowledgement of the first"""
+    a2 = [0, 0xFE, 0xCB, 6, 0x10, dict(seed=91, len=17)]
+    cmd = [0, 0xD5, 0x10, 6, 0x20, dict(seed=92, len=3)]
+    sc = shape('j1939-21', 'bam', 1, size=13)
+    sc['stacks'][0]['subs'] = [dict(cid=1, filt=0x10, script=[dict(op='send', a=a2, once='answer')])]
+    sc['stacks'][1]['subs'] = [dict(cid=2, filt=0x20, script=[dict(op='send', a=cmd, once='command')])]
+    sc['chain'] = dict(payloads=[sc['script'][0]['a'][5], a2[5]], receiver=1, cid=2)
+    yield sc
+    import refpeer as R
+    for win in (1, 'all'):
+        sc = shape('j1939-22', 'p2p', win, size=130)
+        a2 = [0, 0xD0, 0x20, 6, 0x10, dict(seed=93, len=150)]
+        sc['stacks'][0]['subs'] = [dict(cid=1, filt=0x10, script=[dict(op='send', a=a2, once='next')])]
+        sc['chain'] = dict(payloads=[sc['script'][0]['a'][5], a2[5]], receiver=1, cid=2)
+        yield sc
+        # ... or from a callback that answers a short command of B arriving right after the acknowledgement — at an instant
+        # that falls into the suspension of the job thread while it clears the acknowledged session away
+        base = scen.run(dict(shape('j1939-22', 'p2p', win, size=130)))
+        acks = [e[0] for e in base.trace if e[2] == 'tx' and e[1] == 1 and ((e[3] >> 16) & 0xFF) == 0x4D and (e[6][0] & 0xF) == 3]
+        for dt in (400, 650):
+            if not acks:
+                break
+            sc = shape('j1939-22', 'p2p', win, size=130)
+            sc['inject'] = [dict(t=acks[0] + 300 + dt, to=0, id=R.ref_can_id(6, 0xD500 + 0x10, 0x20), data=[1, 2, 3], via='listener')]
+            sc['stacks'][0]['subs'] = [dict(cid=1, filt=0x10, script=[dict(op='send', a=a2, once='next-after-command', if_pgn=0xD500)])]
+            sc['chain'] = dict(payloads=[sc['script'][0]['a'][5], a2[5]], receiver=1, cid=2, after_ack=dt)
+            yield sc
+
+
 def sweep(sc, holds, step=1, stop_after=None):
     """yields (hold, res) for every line index of both job threads"""
     for s in (0, 1):
@@ -76,6 +108,19 @@ def runner(sc):
 
 
 def oracle(sc, res):
+    if sc.get('chain'):
+        # both messages, each exactly once, at the receiver; both stacks alive and idle at the end
+        v = []
+        want = sorted(tuple(scen.payload(x)) for x in sc['chain']['payloads'])
+        got = sorted(tuple(e[7]) for e in res.trace if e[2] == 'cb' and e[1] == sc['chain']['receiver'] and e[3] == sc['chain']['cid'] and len(e[7]) > 8)
+        if got != want:
+            v.append(dict(kind='answering-transfer-not-delivered-exactly-once', deliveries=[len(g) for g in got], expected=[len(w) for w in want]))
+        for j, js in enumerate(res.job):
+            if js != 'alive':
+                v.append(dict(kind='job-thread-' + js, stack=j))
+        if not all(res.empty):
+            v.append(dict(kind='session-left-at-end', empty=res.empty))
+        return v
     if sc.get('reuse'):
         # first payload exactly once; the second exactly once if its send_pgn was accepted, not at all if it was refused
         v = []
@@ -112,7 +157,7 @@ def explore(out, tier, second=0):
     worst = {}
     holds = [700] if tier == 'quick' else [200, 700, 5000]
     n = 0
-    for sc in list(shapes(tier)) + list(reuse_shapes()):
+    for sc in list(shapes(tier)) + list(reuse_shapes()) + list(chain_shapes()):
         base = scen.run(dict(sc))
         if oracle(sc, base):
             worst.setdefault('baseline-' + oracle(sc, base)[0]['kind'], (oracle(sc, base)[0], sc))
@@ -121,9 +166,9 @@ def explore(out, tier, second=0):
             if held is None:
                 continue
             n += 1
-            out.add_case((sc['dll'], sc['kind'], sc['win'], bool(sc.get('from_timer')), json.dumps(sc.get('reuse'), sort_keys=True) + str(len(sc['script'])) + str(sc['script'][-1]['t']), h['s'], h['k'], h['d']), True,
+            out.add_case((sc['dll'], sc['kind'], sc['win'], bool(sc.get('from_timer')), json.dumps([sc.get('reuse'), sc.get('chain')], sort_keys=True) + str(len(sc['script'])) + str(sc['script'][-1]['t']), h['s'], h['k'], h['d']), True,
                          sample=dict(dll=sc['dll'], kind=sc['kind'], window=sc['win'], hold=h, held_at=held) if len(out.samples) < 4 else None)
-            for x in oracle(sc, res) + ([] if sc.get('reuse') else same_as_undisturbed(base, res)):
+            for x in oracle(sc, res) + ([] if (sc.get('reuse') or sc.get('chain')) else same_as_undisturbed(base, res)):
                 key = x['kind']
                 if key not in worst:
                     worst[key] = (dict(x, held_at=held, hold=h), dict(sc, hold=h))
